@@ -63,11 +63,106 @@ def run(chk) -> None:
     _r28b(chk, repo)
     chk.rule("R28d", "the human parse output prints, under each variant's heading, the tree of that variant: inside a loop over the parsed variants every stringify() receiver derives from the loop's own element")
     _r28d(chk, repo)
+    chk.rule("R28e", "each record the parse / lint commands and the simple API build in a loop describes the item of that iteration: no value placed in a record built inside a loop is a local whose in-loop assignment can reach the record only from an earlier iteration")
+    _r28e(chk, repo)
+    chk.rule("R28f", "the two child lists the human tree output of an unparsable section walks (comments, then the rest) partition self.segments: one comprehension over self.segments with a test, the other with the negation of the same test")
+    _r28f(chk, repo)
     _r28c(chk, repo)
     chk.note("Claimed at the weakest level: these are wiring facts of the serialiser, not a proof that the listed texts concatenate to the rendered SQL.")
 
 
 # ---------------------------------------------------------------------------
+R28E_SCOPE = ("src/sqlfluff/cli/commands.py", "src/sqlfluff/api/simple.py", "src/sqlfluff/core/linter/linted_dir.py", "src/sqlfluff/core/linter/linting_result.py")
+
+
+def _r28f(chk, repo) -> None:
+    SEGBASE_ = "src/sqlfluff/core/parser/segments/base.py"
+    a = repo.fn(SEGBASE_, "BaseSegment._comments")
+    b = repo.fn(SEGBASE_, "BaseSegment._non_comments")
+
+    def shape(f):
+        cfg = cfg_of(f)
+        rets = [r for r in walk_local(f) if isinstance(r, ast.Return) and r.value is not None]
+        if len(rets) != 1:
+            return None
+        v = rets[0].value
+        if isinstance(v, ast.Name):
+            os_ = origins(cfg, v, rets[0])
+            v = os_[0].expr if len(os_) == 1 and os_[0].kind == "expr" else v
+        if isinstance(v, ast.Call) and call_name(v) in ("list", "tuple") and len(v.args) == 1:
+            v = v.args[0]
+        if not (isinstance(v, (ast.ListComp, ast.GeneratorExp)) and len(v.generators) == 1 and isinstance(v.generators[0].target, ast.Name)):
+            return None
+        g = v.generators[0]
+        if not (isinstance(v.elt, ast.Name) and v.elt.id == g.target.id and norm(g.iter) == "self.segments" and len(g.ifs) == 1):
+            return None
+        t, neg = g.ifs[0], False
+        while isinstance(t, ast.UnaryOp) and isinstance(t.op, ast.Not):
+            t, neg = t.operand, not neg
+        import copy
+        t2 = copy.deepcopy(t)
+        for x in ast.walk(t2):
+            if isinstance(x, ast.Name) and x.id == g.target.id:
+                x.id = "$"
+        return norm(t2), neg
+
+    sa_, sb_ = shape(a), shape(b)
+    if sa_ is None or sb_ is None:
+        raise AnalysisError("R28f: _comments / _non_comments are no longer single filtered comprehensions over self.segments; re-confirm the anchor by hand")
+    chk.require(
+        sa_[0] == sb_[0] and sa_[1] != sb_[1], "R28f", b,
+        f"_comments keeps children with `{'not ' if sa_[1] else ''}{sa_[0]}` and _non_comments those with `{'not ' if sb_[1] else ''}{sb_[0]}`: the two lists no longer partition the children, "
+        "so the human output of an unparsable section that holds a comment loses (or repeats) tokens",
+        detail="_comments / _non_comments partition self.segments",
+    )
+
+
+def _r28e(chk, repo) -> None:
+    """`x = None` before the loop, `if ok: x = f(item)` inside it, `records.append({.., "k": x})`: an item
+    for which the branch is not taken is reported with the previous item's value."""
+    from ..cfg import defs_of_stmt
+
+    n_rec = 0
+    for rel in R28E_SCOPE:
+        m = repo.mod(rel)
+        for q, f in m.functions():
+            loops = [l for l in walk_local(f) if isinstance(l, ast.For)]
+            if not loops:
+                continue
+            cfg = cfg_of(f)
+            rd = cfg.reaching()
+            for l in loops:
+                inside = {id(x) for b in l.body for x in ast.walk(b)}
+                for d in [x for b in l.body for x in ast.walk(b) if isinstance(x, ast.Dict)]:
+                    st = cfg.stmt_of(d)
+                    if st is None:
+                        continue
+                    n_rec += 1
+                    for v in [x for x in d.values if isinstance(x, ast.Name)]:
+                        defs = rd.defs_at(st, v.id)
+                        inner = [x for x in defs if x.stmt is not None and id(x.stmt) in inside and x.kind == "assign"]
+                        if not inner or all(id(x.stmt) in inside for x in defs if x.stmt is not None) and not any(x.stmt is None for x in defs):
+                            # only in-loop definitions reach: decide below whether one of them arrives around the back edge
+                            pass
+                        for x in inner:
+                            # self-referential / accumulating definitions are intended to carry over
+                            if any(isinstance(y, ast.Name) and y.id == v.id for y in ast.walk(x.value)) if x.value is not None else True:
+                                continue
+                            others = [y for y in cfg.nodes if y is not x.stmt and any(dd.name == v.id for dd in defs_of_stmt(y))]
+                            oid = {id(y) for y in others}
+                            around = cfg.paths_avoiding(x.stmt, l, lambda nn: id(nn) in oid) and cfg.paths_avoiding(l, st, lambda nn: id(nn) in oid or nn is x.stmt)
+                            if around:
+                                chk.fail(
+                                    "R28e", v,
+                                    f"{q}: the record built here takes `{v.id}` from `{short(x.stmt, 50)}`, which can reach it from an EARLIER iteration of the loop (the assignment is not made on every "
+                                    f"path of the current one): an item that skips it is reported with the previous item's value (a file that failed to parse gets the previous file's tree)",
+                                    detail=f"{q}: record value {v.id} is set in the iteration that uses it",
+                                )
+                                break
+    chk.count("R28e.records_built_in_loops", n_rec)
+    chk.floor("R28e.records_built_in_loops", 3)
+
+
 def _r28d(chk, repo) -> None:
     m = repo.mod(FMT)
     n = 0
@@ -730,6 +825,24 @@ def _r28c(chk, repo) -> None:
 from ..selftest import Variant  # noqa: E402
 
 VARIANTS = [
+    Variant(
+        "non-comments-are-code-only", "src/sqlfluff/core/parser/segments/base.py",
+        '        return [seg for seg in self.segments if not seg.is_type("comment")]\n',
+        "        return [seg for seg in self.segments if seg.is_code]\n",
+        "R28f", "_non_comments", "seeded C28-3: whitespace of an unparsable section that holds a comment is not printed",
+    ),
+    Variant(
+        "quiet-non-comments-through-a-local", "src/sqlfluff/core/parser/segments/base.py",
+        '        return [seg for seg in self.segments if not seg.is_type("comment")]\n',
+        '        rest = [child for child in self.segments if not child.is_type("comment")]\n        return rest\n',
+        "QUIET", None, "R28f: loop variable renamed, result through a local",
+    ),
+    Variant(
+        "parse-records-keep-the-previous-tree", "src/sqlfluff/cli/commands.py",
+        "            else:\n                # Parsing failed - return null for segments.\n                segments = None\n",
+        "",
+        "R28e", "parse", "seeded C28-4 (without the declaration before the loop the first file raises instead; with it the previous file's tree is emitted)",
+    ),
     # behaviour-preserving refactors: must stay quiet
     Variant(
         "quiet-as-record-two-steps", SEGBASE,
